@@ -7,7 +7,8 @@ checksum hash, HMAC-SHA512, hash160 and the elliptic curve are ideal."""
 from lbry.crypto.base58 import Base58, Base58Error
 from lbry.wallet.mnemonic import Mnemonic
 
-from harness import bip32_c06
+from harness import bip32_c06, gap_c06
+from harness.gap_c06 import address_gap      # noqa: F401  (job function)
 from harness.bip32_c06 import derive, bad_index, parse_extended      # noqa: F401  (job functions)
 
 LEVEL_TEXT = ('Bounded model checking of the real codecs: every payload of up to N symbolic bytes is Base58-encoded and decoded '
@@ -20,11 +21,13 @@ LEVEL_TEXT = ('Bounded model checking of the real codecs: every payload of up to
               'depth, public key, fingerprints and 78-byte extended keys an independent BIP32 reference gives; public-only derivation '
               'of a normal child equals the public key of the private child and is refused for hardened indices; extended keys '
               'parse back; _from_extended_key on every 77..79-byte string accepts exactly well-formed keys and reads every field '
-              'from the right bytes.')
+              'from the right bytes.  Address gap: ensure_address_gap / _generate_keys on every usage pattern of 0-4 existing addresses '
+              'and every gap 1-3: afterwards at least `gap` unused addresses follow the last used one, numbering continues without '
+              'holes or repeats, the new addresses are returned and announced in order, a second call adds nothing.')
 LEVEL_NOTE = ('Trusted: z3, the interpreter and its hex / divmod / constant-table models (paths replayed natively with the real '
               'hash and word list; the BIP32 jobs replay with real HMAC/hash160 and a stand-in curve).  Outside - not decidable in '
               'this family here: that coincurve/libsecp256k1 and HMAC-SHA512 compute what BIP32 prescribes (test vectors), '
-              'address generation order and gap handling (database-driven), mnemonic_to_seed.')
+              'the SQL behind the address table (the gap logic runs over an in-memory table), mnemonic_to_seed.')
 ASSUMPTIONS = ['double_sha256 = ideal function (checksum equality is decided on its symbolic output bytes)',
                'payloads are not all-zero (int_to_bytes(0) yields one zero byte; no versioned key or address is all-zero)',
                'the word table has 2048 distinct whitespace-free entries (checked concretely on every run)',
@@ -32,7 +35,7 @@ ASSUMPTIONS = ['double_sha256 = ideal function (checksum equality is decided on 
                'ideal function (fresh non-zero result per new argument pair, shared by PrivateKey.add and PublicKey.add); HMAC '
                'outputs are fresh 256-bit values; events of probability 2^-127 (an HMAC half that is zero or collides) are assumed away; '
                'Base58Check is an opaque inverse pair in these jobs']
-OUTSIDE = ['HMAC-SHA512 / secp256k1 values themselves (BIP32 test vectors)', 'address generation order and gap (database)',
+OUTSIDE = ['HMAC-SHA512 / secp256k1 values themselves (BIP32 test vectors)', 'the SQL behind the address table',
            'payloads longer than the bound', 'mnemonic_to_seed (PBKDF2)', 'derivation paths deeper than the bound']
 
 ALPHABET = '123456789ABCDEFGHJKLMNPQRSTUVWXYZabcdefghijkmnopqrstuvwxyz'
@@ -230,6 +233,7 @@ def jobs(tier):
         out.append(dict(name=f'mnemonic-{w}words', family='mnemonic', fn='mnemonic', args=(w,), loop_bound=200, max_depth=50, cost=50 * w,
                         bounds=dict(i=f'[1, 2048^{w})'), must_reach=('ok',)))
     out.extend(bip32_c06.jobs(tier))
+    out.extend(gap_c06.jobs(tier))
     return out
 
 
@@ -300,6 +304,16 @@ def _chain_code_offset(node):
     return False
 
 
+def _gap_no_break(node):
+    """Canary: ensure_address_gap counts every unused address among the last `gap`, not only those after the last used one."""
+    import ast
+    for n in ast.walk(node):
+        if isinstance(n, ast.If) and n.orelse and isinstance(n.orelse[0], ast.Break):
+            n.orelse = [ast.Pass()]
+            return True
+    return False
+
+
 CANARIES = [
     dict(name='encode-leading-zero-count', target='lbry.crypto.base58:Base58.encode', mutate=_encode_skips_leading_zeros,
          job=dict(family='base58', fn='encode_decode', args=(2,), loop_bound=200, max_depth=50, query_timeout_ms=30000,
@@ -313,6 +327,8 @@ CANARIES = [
          job=dict(family='bip32', fn='derive', args=(16, 1), loop_bound=200, max_depth=60)),
     dict(name='bip32-child-number-endianness', target='lbry.wallet.bip32:_KeyBase._extended_key', mutate=_child_number_little_endian,
          job=dict(family='bip32', fn='derive', args=(16, 1), loop_bound=200, max_depth=60)),
+    dict(name='gap-counts-from-the-wrong-end', target='lbry.wallet.account:HierarchicalDeterministic.ensure_address_gap', mutate=_gap_no_break,
+         job=dict(family='gap', fn='address_gap', args=(4, 3), loop_bound=200, max_depth=60)),
     dict(name='bip32-parser-offsets', target='lbry.wallet.bip32:_from_extended_key', mutate=_chain_code_offset,
          job=dict(family='bip32', fn='parse_extended', args=(), loop_bound=200, max_depth=60)),
 ]
